@@ -91,6 +91,12 @@ type c17Glob struct {
 	splice     bool     // macros: last parameter is &rest, spliced
 	lvl        int      // call-graph height (bounds evaluation cost)
 	file       int      // file of the (latest) definition
+	// macros of the "site names" family (c17_gen_site.go): site is the package
+	// whose globals the template's free names denote (the macro is called only
+	// from there); noCall: the call shape is not (m int...) - only the family
+	// itself writes calls
+	site   string
+	noCall bool
 }
 
 type c17Pkg struct {
@@ -201,6 +207,10 @@ type c17Gen struct {
 	tmplFree map[string]string
 	limitLvl int // while a definition's body is generated: highest callee level allowed (0 = no limit)
 	lvlSeen  int
+	// siteGroups: number of "site names" macro groups emitted (c17_gen_site.go)
+	siteGroups int
+	// siteNames: helper names of those groups -> the package that provides them
+	siteNames map[string]string
 }
 
 func (g *c17Gen) lvlOK(gl *c17Glob) bool { return g.limitLvl == 0 || gl.lvl <= g.limitLvl }
@@ -306,6 +316,9 @@ func (g *c17Gen) pickGlobalName(p *c17Pkg, r *c17Rng, allowRedef bool) string {
 			name = c17Pick(r, c17PlainNames)
 		}
 		if p.imports[name] != nil || p.hidden[name] || p.usedBuiltin[name] {
+			continue
+		}
+		if q, ok := g.siteNames[name]; ok && q != p.name && g.avoiding("D13", "global-spelled-like-a-template-name-that-another-package-provides") {
 			continue
 		}
 		if old := p.defs[name]; old != nil {
@@ -438,7 +451,7 @@ func (g *c17Gen) callees(env *c17Env, macros bool) []c17Callee {
 		return gl.kind == c17KFn || gl.kind == c17KVarFn
 	}
 	want0 := want
-	want = func(gl *c17Glob) bool { return want0(gl) && g.lvlOK(gl) }
+	want = func(gl *c17Glob) bool { return want0(gl) && g.lvlOK(gl) && !gl.noCall }
 	for _, gl := range env.pkg.order {
 		if want(gl) && !seen[gl.name] {
 			out = append(out, c17Callee{head: c17Sym(gl.name), gl: gl, req: gl.req, opt: gl.opt})
@@ -476,7 +489,12 @@ func (g *c17Gen) macroCallable(env *c17Env, c c17Callee) bool {
 	if m == nil || m.kind != c17KMacro {
 		return false
 	}
-	if m.pkg != env.pkg.name && !m.crossOK {
+	if m.site != "" {
+		// free names of the template are globals of package m.site
+		if env.pkg.name != m.site {
+			return false
+		}
+	} else if m.pkg != env.pkg.name && !m.crossOK {
 		return false
 	}
 	if _, ok := env.local(m.name); ok {
@@ -1807,7 +1825,7 @@ func (g *c17Gen) emitTwin(f int, src *c17TwinSrc) string {
 func c17Generate(seed uint64, on map[string]bool, kwOK bool, avoid map[string]bool) *c17Session {
 	root := c17NewRng(seed)
 	g := &c17Gen{on: on, used: map[string]int{}, kwOK: kwOK, pkgs: map[string]*c17Pkg{}, names: map[string]bool{},
-		avoid: avoid, excluded: map[string]int{}, tmplFree: map[string]string{}}
+		avoid: avoid, excluded: map[string]int{}, tmplFree: map[string]string{}, siteNames: map[string]string{}}
 	rs := root.fork() // structure stream
 	// partition the minifier-like names between call sites and template binders
 	mini := append([]string(nil), c17MiniNames...)
@@ -1846,6 +1864,9 @@ func c17Generate(seed uint64, on map[string]bool, kwOK bool, avoid map[string]bo
 	twinsOn := nfiles > 1 && g.has("packages") && tw.chance(1, 2)
 	var twinSrcs []*c17TwinSrc
 	twinOf := map[int]int{}
+	// "site names" macro groups: drawn from a stream of their own as well
+	sm := c17NewRng(seed ^ 0x736974656e616d65)
+	siteOn := g.has("defmacro") && sm.chance(2, 5)
 	for f := 0; f < nfiles; f++ {
 		g.curFile = f
 		if f > 0 && g.avoid["D10"] {
@@ -1882,6 +1903,9 @@ func c17Generate(seed uint64, on map[string]bool, kwOK bool, avoid map[string]bo
 			if fresh && twinsOn {
 				// the segment that introduced package pn opens this file: a template
 				twinSrcs = append(twinSrcs, &c17TwinSrc{file: f, pkg: pn, nforms: len(g.files[f]), snap: p.cloneAs(pn, f)})
+			}
+			if siteOn && g.siteGroups < 2 && sm.chance(1, 2) {
+				g.siteGroup(f, p, pkgChoices, sm.fork())
 			}
 		}
 	}
